@@ -177,6 +177,8 @@ def run_model_check(prop, tier, seed, profiles=None, extra_filter=None):
                         'pos': v['pos'], 'pending': v.get('pending'),
                         'window': engine.short_trace(res[cfg][i].recs, max(0, v['pos'] - 12), 20)})
                     violations.append((rp, m, cfg, v['rule'], v['expected'], v['got']))
+    if prop == 'C05':
+        harness_problems += long_pending_part(prop, tier, seed, known, known_hits, violations, ev)
     if prop == 'C12':
         mc = memcheck_part(prop, tier, seed, known, known_hits, violations, ev)
         if mc:
@@ -220,6 +222,50 @@ MEMCHECK_SETS = {
     'quick': [('m06', ['mf', 'mc', 'b']), ('m11', ['mf', 'b11'])],
     'thorough': [('m06', None), ('m11', None), ('m03', None), ('m05', None), ('m07', None)],
 }
+
+
+def long_pending_part(prop, tier, seed, known, known_hits, violations, ev):
+    """'the event stays pending however many other events are processed' and is re-offered when the deferring
+    state is left: one occurrence is deferred, N handled events that do not change the configuration follow,
+    then the deferring state is left.  N sweeps the wrap points of the back-ends' cycle counters (8 bit in
+    back / back11, formerly 16 bit in backmp11: defect D19)."""
+    def script(n, first):
+        return ' '.join(['S', 'Mffffffffffffffff', 'P1:1'] + ['P3:%d' % (i + 2) for i in range(n)] + ['P0:%d' % (n + 5)])
+    groups = [(['b', 'bc', 'bq', 'b11'], list(range(250, 262)) + list(range(506, 518)), 30)]
+    if tier == 'quick':
+        groups.append((['mf'], [65534], 300))
+    else:
+        groups.append((['mf', 'mp', 'mc'], [65533, 65534, 65535, 65536, 131070, 131071], 600))
+    problems = []
+    for cfgs, ns, alarm in groups:
+        h = engine.Harness('m07d', cfgs)
+        errs = engine.build_harnesses([h])
+        if errs:
+            return [('long-pending-build', e[:300]) for e in errs]
+        scripts = [script(n, 1) for n in ns]
+        res = run.run_matrix(h.bins, scripts, alarm=alarm)
+        verdicts = engine.accept_all(h, res)
+        for cfg in h.cfgs:
+            for i, v in enumerate(verdicts[cfg]):
+                ev.evaluations += 1
+                if v['ok']:
+                    ev.distinct.add(('long-pending', build.FAMNAME[cfg], ns[i]))
+                    continue
+                if 'HARNESS' in v['tags']:
+                    problems.append(('long-pending', cfg, ns[i], v['rule'], v['got'][:200]))
+                    continue
+                sig = 'm07d|long-pending N=%d|%s' % (ns[i], v['expected'][:100])
+                k = engine.match_known(known, prop, build.FAMNAME[cfg], v['rule'], sig)
+                if k:
+                    known_hits[k['id']] = known_hits.get(k['id'], 0) + 1
+                    continue
+                rp = engine.write_replay(prop, {'property': prop, 'machine': 'm07d', 'cfg': cfg, 'switch': 0,
+                                                'script': 'GEN long-pending %d' % ns[i], 'rule': v['rule'], 'tags': sorted(v['tags']),
+                                                'expected': v['expected'], 'got': v['got'], 'pos': v['pos'],
+                                                'window': engine.short_trace(res[cfg][i].recs, max(0, v['pos'] - 12), 20)})
+                violations.append((rp, 'm07d', cfg, v['rule'] + ' (N=%d intervening events)' % ns[i], v['expected'], v['got']))
+    ev.extra['long_pending_runs'] = {'/'.join(c): n for c, n, _ in groups}
+    return problems
 
 
 def memcheck_part(prop, tier, seed, known, known_hits, violations, ev):
@@ -283,6 +329,9 @@ def replay_memcheck(path):
 
 def replay(path):
     d = json.load(open(path))
+    if d['script'].startswith('GEN long-pending '):
+        n = int(d['script'].split()[-1])
+        d['script'] = ' '.join(['S', 'Mffffffffffffffff', 'P1:1'] + ['P3:%d' % (i + 2) for i in range(n)] + ['P0:%d' % (n + 5)])
     h = engine.Harness(d['machine'], [d['cfg']], switch=d.get('switch', 0))
     errs = engine.build_harnesses([h])
     if errs:
